@@ -21,9 +21,13 @@ pub struct Body {
     pub leaf: bool,
 }
 
-fn leaves(params: &[&str]) -> Vec<Body> {
+fn leaves(params: &[&str], thorough: bool) -> Vec<Body> {
     let mut v: Vec<Body> = params.iter().map(|p| Body { text: p.to_string(), size: 0, leaf: true }).collect();
     v.push(Body { text: "2".into(), size: 0, leaf: true });
+    // the dimension-polymorphic literal (one-parameter bodies of the thorough tier)
+    if params.len() == 1 && thorough {
+        v.push(Body { text: "0".into(), size: 0, leaf: true });
+    }
     v
 }
 
@@ -72,7 +76,7 @@ fn cond_op(op: &str, l: &Body, r: &Body, a: &Body, b: &Body) -> Body {
 
 /// all bodies with at most `n` operator nodes (n <= 2 complete; n == 3: the families listed in the rule)
 pub fn bodies(params: &[&str], thorough: bool) -> Vec<Body> {
-    let l0 = leaves(params);
+    let l0 = leaves(params, thorough);
     let mut s1: Vec<Body> = vec![];
     for a in &l0 {
         s1.extend(unary(a, false));
@@ -363,7 +367,7 @@ pub fn check(rep: &mut Report) {
     rep.set("verdicts", json!(counts));
     rep.set("calls_compared", json!(calls * 2));
     rep.set("argument_alphabet", json!(&ARGS[..nargs]));
-    rep.rule = "every unannotated body with <= 2 operator nodes over leaves {x, 2} / {x, y, 2} (unary: -, ^e for e in {2,3,-1,1/2,1/3,1/5,2/3,0}, sqrt, sqr, abs, cbrt; binary: * / + hypot2 mean head; conditionals `if l > r then a else b`; plus `==` / `!=` conditions for every one-node conditional and for two-node ones with the nested term in a branch), plus every binary operator applied to two one-node operands (thorough: full unary set, conditionals over them, and every unary of a two-node body); for each accepted body: printed signature + original body re-declared in a second clone, signatures compared, and every argument tuple from the value alphabet (quick 6: Scalar, Length, Bool, Time, the polymorphic 0, Length² — the first 4 for two-parameter bodies; thorough 10: + Velocity, Mass, 1/Time, Length^15) called on both; non-trivial = accepted bodies (each compared on all call tuples)".into();
+    rep.rule = "every unannotated body with <= 2 operator nodes over leaves {x, 2} (thorough: + the polymorphic 0) / {x, y, 2} (unary: -, ^e for e in {2,3,-1,1/2,1/3,1/5,2/3,0}, sqrt, sqr, abs, cbrt; binary: * / + hypot2 mean head; conditionals `if l > r then a else b`; plus `==` / `!=` conditions for every one-node conditional and for two-node ones with the nested term in a branch), plus every binary operator applied to two one-node operands (thorough: full unary set, conditionals over them, and every unary of a two-node body); for each accepted body: printed signature + original body re-declared in a second clone, signatures compared, and every argument tuple from the value alphabet (quick 6: Scalar, Length, Bool, Time, the polymorphic 0, Length² — the first 4 for two-parameter bodies; thorough 10: + Velocity, Mass, 1/Time, Length^15) called on both; non-trivial = accepted bodies (each compared on all call tuples)".into();
     rep.assumptions = vec![
         "the printed signature is the text before ` = ` of Statement::pretty_print of the accepted definition".into(),
         "the session loads only core::functions, core::lists, math::statistics, math::geometry and units::si; both definitions use the same function name in two copies of it that evolve in lockstep (refreshed every 32 bodies), so results and error texts are compared literally; exponent spelling (A² vs A^2) is not compared".into(),
